@@ -1,4 +1,5 @@
 import NjectProofs.IncludeTerm
+import NjectProofs.IncludeTerm2
 /-
   The include computation's validation loops end within the fuel the model gives them: the model never
   answers "out of fuel", so every error it reports is one of the implementation's own (a Required or
@@ -37,6 +38,21 @@ theorem C03_unused_elimination_fuel_is_enough (ch : Chain) (extra : Nat) :
       = eliminateUnused (ch.length + (ch.map (·.uses.length)).sum + 8) (List.range ch.length) ch := by
   have := elimMeasure_range_le ch
   exact eliminateUnused_fuel _ _ _ _ (by omega) (by omega)
+
+/-- the keep-closure of `proposeEliminations` (either direction, started from any seeds taken from the chain's
+    positions, with exactly the fuel `proposeEliminations` gives it) has used up its work list before the fuel: more
+    fuel gives the same set.  (Each step takes one entry off the work list; a provider -- when it is first kept, at
+    most once each -- adds at most one entry per type it asks for.) -/
+theorem C03_keep_closure_fuel_is_enough (ch : Chain) (down : Bool) (seeds : List Nat) (hs : seeds.length ≤ ch.length) (extra : Nat) :
+    keepClosure ch down (ch.length + (ch.map fun f => (f.usesIn ++ f.usesByp).length + f.usesRecv.length).sum + 8 + extra) seeds []
+      = keepClosure ch down (ch.length + (ch.map fun f => (f.usesIn ++ f.usesByp).length + f.usesRecv.length).sum + 8) seeds [] := by
+  have := kcMeasure_start_le ch down seeds hs
+  exact keepClosure_fuel ch down _ _ _ _ (by omega) (by omega)
+
+/-- the seeds `proposeEliminations` starts from are positions of the chain, each at most once -/
+theorem C03_keep_closure_seeds_fit (ch : Chain) (p : Nat → Bool) : ((List.range ch.length).filter p).length ≤ ch.length := by
+  have := List.length_filter_le p (List.range ch.length)
+  simpa using this
 
 /-- the measure argument is not vacuous: a chain of two providers where the second cannot be satisfied
     needs a second pass -/
